@@ -11,7 +11,7 @@ CHECKS = {
     "C01": ("pbt-programs", "Hypothesis-generated ordered unit pairs with model-different dimensions (near misses, independent trees, special pairs) x ~70 operations: negative compile probe (must fail) paired with a positive twin (must compile), plus positive trait TUs that must compile and answer no (Quantity and QuantityPoint, both directions, non-zero origins)",
             "Exploration: fixed grid (every operation x 5 unit pairs) plus random pairs, rotating over the six compiler/standard configurations (thorough: all six).",
             "trusts the model's dimension vectors; a probe only counts when its twin compiled in the same configuration", "4/C01"),
-    "C02": ("pbt-programs", "Hypothesis-generated unit expression trees in five spellings, compiled as static_assert batches: is_same of DimT/MagT against model-spelled canonical types, equivalence/ratio predicates on pairs built equal-by-another-route or as near misses, type identity of permuted products",
+    "C02": ("pbt-programs", "Hypothesis-generated unit expression trees in five spellings, compiled as static_assert batches: is_same of DimT/MagT against model-spelled canonical types, equivalence/ratio predicates on pairs built equal-by-another-route or as near misses, type identity of permuted products and of every pure product/power tree (incl. partially cancelling exponents such as pow<2>(root<4>(x))) with the canonical alias UnitProductT<UnitPowerT<U,n,d>...> spelled from net exact exponents",
             "Exploration: a fixed grid (every library unit x 5 spellings, every derived unit against its physical definition, every prefix) plus thousands of random trees/pairs per run, each judged individually under rotating (thorough: all six) compiler configurations. No completeness over all expression trees.",
             "trusts the independently written unit table (auverif/model.py), Python Fractions, and the compilers' static_assert verdicts", "4/C02"),
     "C03": ("pbt-values", "generated instances (grid + Hypothesis) x exhaustive 8/16-bit loops + boundary sets + rapidcheck draws vs exact 128-bit oracle under ASan/UBSan",
@@ -20,8 +20,8 @@ CHECKS = {
     "C04": ("pbt-values", "same generated program as C03: both directions of each checker vs exact rational predicates; float reps with a stated exclusion band",
             "Exploration: exact agreement (iff) of will_conversion_overflow/truncate/is_conversion_lossy with rational-arithmetic predicates on all 8/16-bit values, boundary-complete sets and random draws for wider reps; floating reps judged outside a 16-epsilon band. The property's z3 clause is not attempted (other technique).",
             "trusts the __int128 oracle; NaN/inf unconstrained; band width 16 eps", "4/C04"),
-    "C12": ("pbt-values", "exhaustive comparison with an independent sieve below 2^26/2^30, adversarial 64-bit input families selected by independent code vs deterministic Miller-Rabin, rapidcheck triples for the modular helpers vs unsigned __int128, Hypothesis-generated static_asserts on mag<N>() vs sympy factorisations; libFuzzer target in the thorough tier",
-            "Exploration: exhaustive for all n below the bound, structured adversarial sets (pseudoprime families, Carmichael numbers, squares, semiprimes near 2^16/2^31/2^32, neighbours of 2^k) and random 64-bit operands beyond it. Inputs confined to a tiny region that is not one of these structures (e.g. a spurious wrap in is_perfect_square) are out of reach.",
+    "C12": ("pbt-values", "exhaustive comparison with an independent sieve below 2^26/2^30, adversarial 64-bit input families selected by independent code vs deterministic Miller-Rabin, rapidcheck triples for the modular helpers vs unsigned __int128, Hypothesis-generated static_asserts on mag<N>() vs sympy factorisations; coverage-guided libFuzzer target with the oracle inside (both tiers: 16 x 150k executions quick, 16 x 20M thorough)",
+            "Exploration: exhaustive for all n below the bound, structured adversarial sets (pseudoprime families, Carmichael numbers, squares, semiprimes near 2^16/2^31/2^32, neighbours of 2^k, k*2^t+-1 for every t) and random 64-bit operands beyond it. Inputs confined to a tiny region that is not one of these structures (e.g. a spurious wrap in is_perfect_square) are out of reach.",
             "trusts the deterministic 7-base Miller-Rabin oracle, unsigned __int128 arithmetic and sympy.factorint", "4/C12"),
     "C13": ("pbt-values", "generated programs: memcmp round trip over all 8/16-bit values and float bit patterns, all 8x8-bit operand pairs and rapidcheck/special grids for wider reps, result type pinned by static_assert against the raw operator, accepted by all six configurations; layout facts as static_assert grids over units x reps (Hypothesis-generated compound units)",
             "Exploration: exhaustive where the domain is small (8-bit operand pairs, 16-bit values, 2^32 float patterns in the thorough tier), structured specials + random draws otherwise; one known finding (F5) is excluded by construction and re-checked by a pinned reproducer.",
@@ -45,9 +45,9 @@ CHECKS = {
             "Exploration: exact equality on millions of values per run for integral reps (explicit ulp tolerances for floating reps), enumerated negative probes for every operation without affine meaning.",
             "assertions only where result and model intermediates are representable (the statement's proviso); comparison checks only on instances the policy model admits", "4/C09"),
     "C11": ("pbt-programs", "Hypothesis-generated magnitudes (primes up to 2^64-59, exponents straddling every integer and floating limit, roots, pi) built through the library's operators; static_assert of representable_in/get_value against exact integers and 30-digit mpmath bounds, canonical-type identity, classification and split functions as spelled types, equality via two routes; negative compile probes (with twins) for get_value on non-representable magnitudes",
-            "Exploration: enumerated limit grid for all 11 types plus random magnitudes; the bands next to the floating limits and magnitudes whose partial products leave long double's range are only required to be refused cleanly or be correct.",
+            "Exploration: enumerated limit grid for all 11 types, magnitudes CONSTRUCTED next to each limit of T (2^a * prod p^e with mixed signs; odd part * 2^k for integers) plus random magnitudes; the bands next to the floating limits and magnitudes whose partial products leave long double's range are only required to be refused cleanly or be correct.",
             "trusts Fractions/mpmath and compile-time evaluation by the compilers", "4/C11"),
-    "C19": ("pbt-values", "generated (unit, rep) instances; all 8/16-bit values, special grids and rapidcheck draws (NaN/inf/-0/denormals/raw bits) comparing every ZERO expression with the raw operator against 0 (value and result type); conversion of ZERO to all reps and chrono durations; negative compile probes with twins for every place a quantity point is required",
+    "C19": ("pbt-values", "generated (unit, rep) instances; all 8/16-bit values, special grids and rapidcheck draws (NaN/inf/-0/denormals/raw bits) comparing every ZERO expression with the raw operator against 0 (value and result type); conversion of ZERO to all reps and chrono durations; negative compile probes with twins for every place a quantity point is required, and trait / decltype-detection blocks (is_constructible, is_convertible, is_assignable, ==, <) that must answer no for points and yes for the Quantity twins",
             "Exploration: exhaustive for small reps, specials + random otherwise, across generated compound units; enumerated negative probes.",
             "raw operators compiled by the same compiler are the oracle; NaN results compared as both-NaN", "4/C19"),
     "C14": ("pbt-values", "Hypothesis-generated unit pairs biased to exact and dimension-only cancellation x rep pairs: result type pinned by static_assert (raw number iff the model says the units cancel, else Quantity with model-spelled Dimension/Magnitude and raw rep), values bit-equal to raw operators over all 8x8-bit pairs, special grids and rapidcheck draws; int_pow/sqrt/cbrt/inverse checks; negative probes with twins for the integer-division and as_raw_number guards",
@@ -57,12 +57,12 @@ CHECKS = {
             "Exploration with explicit tolerances for floating point; exhaustive windows for integral reps.",
             "long double oracle; bands and documented exceptions listed in evidence.assumptions", "4/C15"),
     "C16": ("pbt-programs", "Hypothesis-generated (constant, target unit, type) cases: library constants modelled from the SI exact values and make_constant of generated units with integer/rational/huge-prime/pi magnitudes; static_assert of can_store_value_in and of the converted values against exact ratios / 30-digit bounds, negative probes (with twins) for every conversion form when the ratio is not representable, algebra cases pinning stored number and spelled result unit",
-            "Exploration: grid over the 9 library constants x types plus random generated constants and scale factors straddling each type's limits.",
+            "Exploration: grid over the 9 library constants x types plus random generated constants, scale factors straddling each type's limits and ratios constructed next to the limits of T (C11's near-limit construction).",
             "same floating bands as C11; model of the constants independent of the headers", "4/C16"),
     "C17": ("pbt-values", "generated (Rep1, Period1, Rep2, Period2) instances (library typedef periods, awkward ratios, random ratios): round trips bit-exact with rep/unit/period pinned by static_assert; mixed duration/quantity comparisons, sums and differences in both operand orders against chrono's own results (differential oracle) where the model says chrono does not overflow, built as C++20 and syntax-checked elsewhere; acceptance traits against the C06 model",
             "Exploration with chrono itself as the differential oracle; special grids + rapidcheck draws incl. near-equal counts across periods.",
             "mixed operations compared only on instances admitted by Au's conversion policy (model-predicted, compile-checked)", "4/C17"),
-    "C18": ("pbt-programs", "Hypothesis-generated unit expressions (labelled/unlabelled named units, huge/rational/irrational scale factors) whose printed label is parsed by an independent parser of the documented grammar and evaluated back to (dimension, magnitude): denotation round trip against the model; sizeof/strlen, cross-compiler determinism, exact strings for simple shapes, IToA/UIToA digits, exhaustive streaming of all 8-bit reps incl. plain char; everything under ASan+UBSan",
+    "C18": ("pbt-programs", "Hypothesis-generated unit expressions (labelled/unlabelled named units, huge/rational/irrational scale factors, common_unit / common_point_unit of 2-3 same-dimension units) whose printed label is parsed by an independent parser of the documented grammar and evaluated back to (dimension, magnitude): denotation round trip against the model; sizeof/strlen, cross-compiler determinism, exact strings for simple shapes, IToA/UIToA digits, exhaustive streaming of all 8-bit reps incl. plain char; everything under ASan+UBSan",
             "Exploration with a denotational oracle: any label that parses under the documented grammar and denotes the right unit is accepted. One known finding (F3) excluded by construction with a pinned reproducer.",
             "token table (unit symbols, prefix symbols) written in the model; cases whose leaves share a label text are skipped", "4/C18"),
     "C20": ("pbt-programs", "Hypothesis-generated subsets of unit/constant headers x io flag: single-file header generated by tools/bin/make-single-file from the working tree, built with no Au include path / included twice / in two linked TUs; a generated API-surface program compared between single-file and multi-header builds and across all six compiler/standard configurations (differential oracle); every header compiled on its own, fwd+full orders, fwd-declaration link test",
@@ -74,7 +74,7 @@ ENGINES = [
      "serves_properties": []},
     {"name": "pbt-values", "path": "auverif/valrun.py", "kind_free_text": "generated C++ programs instantiating harness/*.hh checks: exhaustive loops for small domains, rapidcheck draws (type-erased driver harness/rcdriver.cc) for wide ones, ASan+UBSan non-recoverable",
      "serves_properties": []},
-    {"name": "fuzz", "path": "fuzz/", "kind_free_text": "libFuzzer targets with the semantic oracle inside the target (thorough tier)", "serves_properties": []},
+    {"name": "fuzz", "path": "fuzz/", "kind_free_text": "libFuzzer targets with the semantic oracle inside the target (clang++ -fsanitize=fuzzer,address,undefined; both tiers, deeper in thorough)", "serves_properties": []},
 ]
 for pid, c in CHECKS.items():
     for e in ENGINES:
